@@ -1,6 +1,9 @@
 package test
 
 import (
+	"github.com/ipld/go-ipld-prime/node/basicnode"
+	cidlink "github.com/ipld/go-ipld-prime/linking/cid"
+	"github.com/ipfs/go-cid"
 	"bytes"
 	"errors"
 	"io"
@@ -368,6 +371,14 @@ func VerifHandBuiltReadOrder() {
 		c := []byte{next}
 		next++
 		l := storeRaw(ls, c)
+		if verifrt.Choose(2) == 1 {
+			// a leaf under an identity-multihash CID ("inlined" block, as `ipfs add --inline`
+			// writes small chunks): still a block the link system is asked for
+			il, err := ls.Store(ipld.LinkContext{}, cidlink.LinkPrototype{Prefix: cid.Prefix{Version: 1, Codec: 0x55, MhType: 0x00, MhLength: -1}}, basicnode.NewBytes(c))
+			verifrt.Assert(err == nil, "harness:store-identity")
+			l = il
+			verifrt.Reach("identity-cid-leaf")
+		}
 		s := pbLinkSpec{hash: l, hasName: true, name: ""}
 		// (a raw link without any Tsize is refused by the reader with an error — legal
 		// for every property, and no reference writer omits it — so it is not generated)
